@@ -42,6 +42,8 @@ class ES:
             if x == 0 or not self._test(x - 1, cs):
                 return None
             return k(x - 1, caps)
+        if isinstance(node, corpus.Opaque):
+            return self.m(node.node, x, caps, k, fwd)
         if isinstance(node, corpus.Start):
             if x == 0 or (fl.multiline and self._test(x - 1, corpus.LINE_TERM)):
                 return k(x, caps)
